@@ -38,6 +38,9 @@ def parse_map(m):
             out += [O] * n
         elif src == "T":
             out += [T] * n
+        elif src.startswith("F["):
+            # an exact boolean function of 2-3 input bits: never equal to a plain source bit
+            out += [("f", src)] * n
         else:
             neg = src.startswith("~")
             if neg:
@@ -69,6 +72,9 @@ def show_bit(b):
         return "1"
     if b == T:
         return "T"
+    if b[0] == "f":
+        tt, *vs = b[1][2:-1].split(";")
+        return "fn(tt=0x%s of %s)" % (tt, ", ".join(vs))
     return "%s%s[%d]" % ("~" if b[3] else "", b[1], b[2])
 
 
@@ -281,7 +287,7 @@ def decl_shape(s, f):
 
 def check_getter(ctx, cr, s, f):
     fname = f["name"].replace("r#", "")
-    props = field_props(f, "C01") | {"C16", "C12"}
+    props = field_props(f, "C01") | {"C12"}
     if f["array"]:
         props.add("C03")
     key0 = "%s::%s" % (s["path"], fname)
@@ -351,7 +357,7 @@ def check_getter(ctx, cr, s, f):
 
 def check_oob(ctx, s, f, fn, parts, key0, what, props):
     K = fcount(f)
-    p = {"C03", "C16"}
+    p = {"C03"}
     cands = [(k, r) for k, r in parts.items() if dict(k).get("p1") == ">=%d" % K]
     if not cands:
         ctx.ob(p, "%s|%s|i>=%d" % (key0, what, K), None, "no analysis run for the out-of-range class")
@@ -426,8 +432,19 @@ def arg_is_param(v, name):
         return arg_is_param(v["ref"], name)
     if "m" in v:
         bits = parse_map(v["m"])
-        return all(b[0] == "s" and not b[3] and b[2] == i and (b[1] == name or b[1].startswith(name + ".") or b[1].startswith(name + "["))
-                   for i, b in enumerate(bits)) or all(b == Z or (b[0] == "s" and (b[1] == name or b[1].startswith(name))) for b in bits)
+        leaf = None
+        n = 0
+        for i, b in enumerate(bits):
+            if b[0] == "s" and not b[3] and b[2] == i and (leaf is None or b[1] == leaf):
+                leaf = b[1]
+                n += 1
+            else:
+                break
+        if n == 0:
+            return False
+        if not (leaf == name or leaf.startswith(name + ".") or leaf.startswith(name + "[")):
+            return False
+        return all(b == Z for b in bits[n:])
     if "s" in v:
         return all(arg_is_param(x, name) for x in v["s"])
     if "a" in v:
@@ -437,9 +454,7 @@ def arg_is_param(v, name):
 
 def check_writers(ctx, cr, s, f):
     fname = f["name"].replace("r#", "")
-    props = field_props(f, "C02") | {"C16", "C12"}
-    if not is_native(s["base"]):
-        props.add("C11")
+    props = field_props(f, "C02") | {"C12"}
     ctx.note_shape(props, s["path"], decl_shape(s, f))
     K = fcount(f)
     idxs = list(range(K)) if f["array"] else [None]
@@ -538,13 +553,13 @@ def check_basics(ctx, cr, s):
         r = fn["runs"][0] if fn.get("runs") else None
         o, prob = single_ret(r) if r else (None, "no run")
         if o is None:
-            ctx.ob(props | {"C16"}, okey, False if (r and not r.get("und") and any(x["k"] != "ret" and not x.get("und") for x in r["outs"])) else None, prob)
+            ctx.ob(props, okey, False if (r and not r.get("und") and any(x["k"] != "ret" and not x.get("und") for x in r["outs"])) else None, prob)
         else:
             bits = raw_of_struct_val(o["v"])
             argsym = "p0" if native else "p0.0"
             exp = [S(argsym, j) for j in range(N)] + [Z] * (St - N)
             d = "unexpected shape" if bits is None else diff_bits(bits, exp)
-            ctx.ob(props | {"C16"}, okey, d is None, d or "", sample={"decl": path, "fn": "new_with_raw_value", "ret": o["v"]})
+            ctx.ob(props, okey, d is None, d or "", sample={"decl": path, "fn": "new_with_raw_value", "ret": o["v"]})
     # raw_value
     fn = fn_of(cr, path, "raw_value")
     okey = path + "::raw_value"
@@ -555,7 +570,7 @@ def check_basics(ctx, cr, s):
         o, prob = single_ret(r) if r else (None, "no run")
         if o is None:
             bad = r and not r.get("und") and any(x["k"] != "ret" and not x.get("und") for x in r["outs"])
-            ctx.ob(props | {"C16"}, okey, False if bad else None, prob)
+            ctx.ob(props, okey, False if bad else None, prob)
         else:
             v = o["v"] if native else struct1(o["v"])
             bits = int_of(v)
@@ -563,7 +578,7 @@ def check_basics(ctx, cr, s):
             d = "unexpected shape" if bits is None else diff_bits(bits, exp)
             if not d:
                 d = self_cell_unchanged(o, St)
-            ctx.ob(props | {"C16"}, okey, d is None, d or "", sample={"decl": path, "fn": "raw_value", "ret": o["v"]})
+            ctx.ob(props, okey, d is None, d or "", sample={"decl": path, "fn": "raw_value", "ret": o["v"]})
     # constants
     zc = cr["_const"].get((path, "ZERO"))
     okey = path + "::ZERO"
@@ -631,7 +646,7 @@ def check_enum(ctx, cr, e):
     St = storage_of(N)
     native = is_native(N)
     pres = enum_present(e)
-    props = {"C07", "C16"}
+    props = {"C07"}
     ctx.note_shape({"C07", "C10"}, path, ("enum", N, tuple(sorted(v["discr"] for v in pres)), e["exh"]))
     adt = cr["_adt"].get(path)
     if adt is None:
@@ -864,7 +879,7 @@ def check_builder(ctx, cr, s):
     r = bfn["runs"][0] if bfn.get("runs") else None
     o, prob = single_ret(r) if r else (None, "no run")
     okey = path + "::builder"
-    props13 = {"C13", "C16"} | (set() if is_native(N) else {"C11"})
+    props13 = {"C13"}
     if o is None:
         ctx.ob(props13, okey, None, prob)
     else:
@@ -954,6 +969,11 @@ def dep_bits(v, sym):
                         unknown[0] = True
                     elif b[0] == "s" and b[1] == sym:
                         out.add(b[2])
+                    elif b[0] == "f":
+                        for v in b[1][2:-1].split(";")[1:]:
+                            nm, k = v.rsplit("@", 1)
+                            if nm == sym:
+                                out.add(int(k))
             else:
                 for k, y in x.items():
                     rec(y)
@@ -1057,61 +1077,197 @@ def check_const(ctx, cr, decl):
                 ctx.ob({"C15"}, "%s::%s|const_pure" % (a, name), False, "calls %s, whose const and run-time behaviour may differ" % bad[:2])
     # const witnesses: rustc's const evaluator vs the model
     for c in decl.get("consts", []):
+        if c.get("skip"):
+            continue
         cf = cr["_const"].get("%s::%s" % (decl["mod"], c["name"]))
         okey = "%s|const_witness|%s" % (path, c["name"])
         if cf is None:
             ctx.ob({"C15"}, okey, None, "const witness not found in facts")
             continue
-        exp = expected_const(decl, c)
-        if exp is None:
-            ctx.ob({"C15"}, okey, "err" not in cf["val"], "const witness failed to evaluate")
+        ctx.note_shape({"C15"}, path, ("witness", c["expr"]))
+        if "err" in cf["val"]:
+            ctx.ob({"C15"}, okey, False, "const witness `%s` failed to evaluate" % c["expr"][:120])
             continue
-        v = cf["val"]
-        for _ in range(exp[0]):
-            v = struct1(v) if v is not None else None
-        bits = int_of(v) if v is not None else None
-        d = "unexpected shape %s" % json.dumps(cf["val"])[:100] if bits is None else diff_bits(bits, exp[1])
-        ctx.ob({"C15"}, okey, d is None, ("const evaluation of `%s` differs from the model: %s" % (c["expr"], d)) if d else "",
-               sample={"decl": path, "const": c["name"], "expr": c["expr"], "val": cf["val"]} if d is None else None)
+        exp = expected_const(cr, decl, c)
+        if exp is None:
+            ctx.ob({"C15"}, okey, None, "the interpreter has no resolved result for `%s` to compare the const evaluation with" % c["expr"][:120])
+            continue
+        depth, width, val = exp
+        bits = leaf_bits(cf["val"], depth)
+        got = eval_bits(bits, {}) if bits is not None else None
+        d = None
+        if got is None:
+            d = "unexpected shape %s" % json.dumps(cf["val"])[:100]
+        elif got != val:
+            d = "rustc's const evaluator gives 0x%x, the run-time semantics of the same body give 0x%x" % (got, val)
+        ctx.ob({"C15"}, okey, d is None, ("`%s`: %s" % (c["expr"][:120], d)) if d else "",
+               sample={"decl": path, "const": c["name"], "expr": c["expr"], "ctfe": "0x%x" % got} if d is None else None)
 
 
-def expected_const(decl, c):
-    """(struct nesting depth, expected constant bits) or None if only compilation is checked"""
-    k = c["kind"]
-    if decl["kind"] == "enum":
-        if k == "enum_raw":
-            N = decl["bits"]
-            return (0 if is_native(N) else 1, const_bits(c["discr"], storage_of(N)))
+def eval_bits(bits, env):
+    """concrete value of a symbolic bit map under an assignment of symbols; None if unresolved"""
+    v = 0
+    for i, b in enumerate(bits):
+        if b == Z:
+            continue
+        if b == O:
+            v |= 1 << i
+        elif b == T:
+            return None
+        elif b[0] == "s":
+            if b[1] not in env:
+                return None
+            x = ((env[b[1]] >> b[2]) & 1) ^ (1 if b[3] else 0)
+            v |= x << i
+        elif b[0] == "f":
+            tt, *vs = b[1][2:-1].split(";")
+            idx = 0
+            for j, var in enumerate(vs):
+                nm, k = var.rsplit("@", 1)
+                if nm not in env:
+                    return None
+                idx |= ((env[nm] >> int(k)) & 1) << j
+            v |= ((int(tt, 16) >> idx) & 1) << i
+    return v
+
+
+def leaf_bits(v, depth):
+    for _ in range(depth):
+        v = struct1(v) if v is not None else None
+    return int_of(v) if v is not None else None
+
+
+def run_for(fn, part):
+    if fn is None:
         return None
+    return runs_by_part(fn).get(tuple(sorted(part.items())))
+
+
+def arg_env(ty, sym, value):
+    if ty["k"] == "uint" and not is_native(ty["w"]):
+        return {sym + ".0": value}
+    return {sym: value}
+
+
+def expected_const(cr, decl, c):
+    """(struct nesting depth, width, value) the interpreter's symbolic result gives for the witness's
+    concrete inputs -- the run-time semantics of the same body -- or None if it cannot be computed"""
+    k = c["kind"]
+    path = decl["path"]
+    if decl["kind"] == "enum":
+        if k != "enum_raw":
+            return None
+        N = decl["bits"]
+        adt = cr["_adt"].get(path)
+        fn = fn_of(cr, path, "raw_value")
+        if adt is None or fn is None:
+            return None
+        vidx = [v["idx"] for v in adt["variants"] if str(v["discr"]) == str(c["discr"])]
+        if not vidx:
+            return None
+        run = run_for(fn, {"p0": "variant%d" % vidx[0]})
+        o, prob = single_ret(run) if run else (None, "")
+        if o is None:
+            return None
+        depth = 0 if is_native(N) else 1
+        bits = leaf_bits(o["v"], depth)
+        val = eval_bits(bits, {}) if bits is not None else None
+        return None if val is None else (depth, storage_of(N), val)
     St, N = decl["storage"], decl["base"]
     fields = {f["name"]: f for f in decl["fields"]}
+    native = is_native(N)
+
+    def wrap(raw):
+        fn = fn_of(cr, path, "new_with_raw_value")
+        o, _ = single_ret(fn["runs"][0]) if fn and fn.get("runs") else (None, "")
+        if o is None:
+            return None
+        bits = raw_of_struct_val(o["v"])
+        return eval_bits(bits, {"p0" if native else "p0.0": raw}) if bits is not None else None
+
     if k == "roundtrip":
-        return (0 if is_native(N) else 1, const_bits(c["raw"], St))
+        r1 = wrap(c["raw"])
+        fn = fn_of(cr, path, "raw_value")
+        o, _ = single_ret(fn["runs"][0]) if fn and fn.get("runs") else (None, "")
+        if r1 is None or o is None:
+            return None
+        depth = 0 if native else 1
+        bits = leaf_bits(o["v"], depth)
+        val = eval_bits(bits, {"p0.0": r1}) if bits is not None else None
+        return None if val is None else (depth, St, val)
     if k == "get":
         f = fields[c["field"]]
-        pos = fpositions(f, c["idx"] or 0)
-        val = sum(((c["raw"] >> p) & 1) << j for j, p in enumerate(pos))
+        fn = fn_of(cr, path, f["name"].replace("r#", ""))
+        part = {} if c["idx"] is None else {"p1": str(c["idx"])}
+        run = run_for(fn, part)
+        o, _ = single_ret(run) if run else (None, "")
+        r1 = wrap(c["raw"])
+        if o is None or r1 is None:
+            return None
         t = f["ty"]
-        if t["k"] == "bool":
-            return (0, const_bits(val, 1))
-        if t["k"] == "int" or is_native(t["w"]):
-            return (0, const_bits(val, t["w"]))
-        return (1, const_bits(val, storage_of(t["w"])))
+        depth = 0 if (t["k"] in ("bool", "int") or is_native(t["w"])) else 1
+        bits = leaf_bits(o["v"], depth)
+        val = eval_bits(bits, {"p0.0": r1}) if bits is not None else None
+        return None if val is None else (depth, len(bits), val)
     if k == "with":
         f = fields[c["field"]]
-        raw = c["raw"]
-        for j, p in enumerate(fpositions(f, c["idx"] or 0)):
-            raw = (raw & ~(1 << p)) | (((c["value"] >> j) & 1) << p)
-        return (1, const_bits(raw, St))
+        fn = fn_of(cr, path, "with_" + f["name"].replace("r#", ""))
+        part = {}
+        ai = 1
+        if c["idx"] is not None:
+            part["p1"] = str(c["idx"])
+            ai = 2
+        env = {}
+        if f["ty"]["k"] == "bool":
+            part["p%d" % ai] = "true" if c["value"] & 1 else "false"
+        else:
+            env.update(arg_env(f["ty"], "p%d" % ai, c["value"]))
+        run = run_for(fn, part)
+        o, _ = single_ret(run) if run else (None, "")
+        r1 = wrap(c["raw"])
+        if o is None or r1 is None:
+            return None
+        env["p0.0"] = r1
+        bits = raw_of_struct_val(o["v"])
+        val = eval_bits(bits, env) if bits is not None else None
+        return None if val is None else (1, St, val)
     if k == "builder":
-        raw = decl["default"]["value"] if decl["default"] is not None else 0
+        pp = partial_path(decl)
+        bfn = fn_of(cr, path, "builder")
+        o, _ = single_ret(bfn["runs"][0]) if bfn and bfn.get("runs") else (None, "")
+        if o is None:
+            return None
+        bits = raw_of_struct_val(o["v"], 1)
+        cur = eval_bits(bits, {}) if bits is not None else None
+        if cur is None:
+            return None
         ws = [f for f in decl["fields"] if "w" in f["access"]]
         for f, v in zip(ws, c["values"]):
-            vs = v if isinstance(v, list) else [v]
-            for i, vv in enumerate(vs):
-                for j, p in enumerate(fpositions(f, i)):
-                    raw = (raw & ~(1 << p)) | (((vv >> j) & 1) << p)
-        return (1, const_bits(raw, St))
+            nm = "with_" + f["name"].replace("r#", "")
+            cands = [lst[0] for key, lst in cr["_fn"].items() if key[0] == pp and key[1] == nm]
+            if len(cands) != 1:
+                return None
+            part = {}
+            env = {"p0.0.0": cur}
+            if f["array"]:
+                for i, vv in enumerate(v):
+                    if f["ty"]["k"] == "bool":
+                        env["p1[%d]" % i] = vv & 1
+                    else:
+                        env.update(arg_env(f["ty"], "p1[%d]" % i, vv))
+            elif f["ty"]["k"] == "bool":
+                part["p1"] = "true" if v & 1 else "false"
+            else:
+                env.update(arg_env(f["ty"], "p1", v))
+            run = run_for(cands[0], part)
+            o, _ = single_ret(run) if run else (None, "")
+            if o is None:
+                return None
+            bits = raw_of_struct_val(o["v"], 1)
+            cur = eval_bits(bits, env) if bits is not None else None
+            if cur is None:
+                return None
+        return (1, St, cur)
     return None
 
 
@@ -1273,6 +1429,45 @@ def check_c11(ctx, cr, s):
             ctx.ob({"C11"}, "%s|raw_writer|%s" % (path, f["path"]), ok, "raw_value of %s is written by %s" % (path, f["path"]) if not ok else "")
 
 
+# ------------------------------------------------------------------ C16 totality
+
+
+def check_total(ctx, cr, decl):
+    """no generated operation can panic / overflow in any in-range partition (strictest profile)"""
+    path = decl["path"]
+    paths = [path]
+    if decl["kind"] == "struct":
+        paths.append(partial_path(decl))
+    ctx.note_shape({"C16"}, path, ("total", decl["kind"], decl.get("base", decl.get("bits")),
+                                   tuple((tuple(map(tuple, f["ranges"])), f["ty"]["k"], (f["array"]["k"], fstride(f)) if f["array"] else None) for f in decl.get("fields", []))))
+    for key, lst in cr["_fn"].items():
+        (a, name, consts, trait) = key
+        if a not in paths or trait is not None:
+            continue
+        fn = lst[0]
+        if fn.get("generic") or "runs" not in fn:
+            continue
+        for run in fn["runs"]:
+            part = run["part"]
+            if any(str(v).startswith(">=") for v in part.values()):
+                continue  # the out-of-range index class: its panic is the documented one (C03)
+            okey = "%s::%s|total|%s" % (a, name, ",".join("%s=%s" % kv for kv in sorted(part.items())) or "-")
+            if run.get("und"):
+                ctx.ob({"C16"}, okey, None, "undecided: %s" % run["und"])
+                continue
+            bad = [o for o in run["outs"] if o["k"] != "ret" and not o.get("und")]
+            may = [o for o in run["outs"] if o.get("und")]
+            if bad:
+                o = bad[0]
+                ctx.ob({"C16"}, okey, False, "`%s::%s` can panic for an in-range input: %s %s" % (a, name, o.get("what"), json.dumps(o.get("args", ""))[:80]))
+            elif may:
+                ctx.ob({"C16"}, okey, None, "an overflow/bounds assert could not be decided: %s" % may[0].get("what"))
+            elif not run["outs"]:
+                ctx.ob({"C16"}, okey, None, "no outcome")
+            else:
+                ctx.ob({"C16"}, okey, True, sample={"fn": "%s::%s" % (a, name), "part": part, "outcomes": len(run["outs"])} if name.startswith("with_") else None)
+
+
 # ------------------------------------------------------------------ C12 frame conditions
 
 
@@ -1290,6 +1485,19 @@ def check_c12_struct(ctx, cr, s):
 # ------------------------------------------------------------------ drivers per family
 
 
+def regime_error(x):
+    m = x.get("message", "")
+    return ("missing documentation" in m) or ("`std`" in m) or ("`alloc`" in m) or (x.get("code") == "E0433" and "std" in m)
+
+
+def decl_text(d):
+    try:
+        from corpus import render_enum, render_struct
+        return " ".join(l.strip() for l in (render_struct(d) if d["kind"] == "struct" else render_enum(d)))
+    except Exception:
+        return d.get("path", "")
+
+
 def analyse_positive(ctx, want_props):
     facts = ctx.facts
     for cname in facts.pos_crates():
@@ -1299,14 +1507,32 @@ def analyse_positive(ctx, want_props):
         diags = facts.diags(cname)
         # accept side of C09/C10 and regime of C18: the crate compiled without errors
         for d in decls:
+            if d["kind"] == "raw" and d.get("prop"):
+                # compiling twin of an E0599 witness
+                q = d.get("quarantined") or [x for x in diags if any(a.get("line") and d["line0"] <= a["line"] <= d["line1"] for a in x["at"])]
+                ctx.note_shape({d["prop"]}, cname + "::" + d["path"], ("twin", d["clause"]))
+                ctx.ob({d["prop"]}, "%s|%s|%s|twin_compiles" % (cname, d["path"], d["clause"]), not q,
+                       "the compiling twin of a must-fail witness does not compile (%s): %s" % (d["clause"], q[0]["message"][:200] if q else ""),
+                       sample={"twin": d["path"], "clause": d["clause"]})
+                continue
             if d["kind"] not in ("struct", "enum"):
                 continue
-            mine = [x for x in diags if any(a.get("line") and d["line0"] <= a["line"] <= d["line1"] for a in x["at"])]
-            p = {"C09" if d["kind"] == "struct" else "C10", "C18"}
-            ctx.note_shape(p, d["path"], ("accept", d["kind"], d["path"]))
-            ctx.ob(p, d["path"] + "|accepted", not mine,
-                   "rule-valid declaration rejected or its expansion does not compile under no_std+deny(missing_docs): %s" % (mine[0]["message"][:200] if mine else ""),
-                   sample={"decl": d["path"], "family": d.get("family"), "compiles": not mine})
+            mine = d.get("quarantined") or [x for x in diags if any(a.get("line") and d["line0"] <= a["line"] <= d["line1"] for a in x["at"])]
+            regime = [x for x in mine if regime_error(x)]
+            p = {"C18"} if (mine and len(regime) == len(mine)) else {"C09" if d["kind"] == "struct" else "C10"}
+            allp = {"C09" if d["kind"] == "struct" else "C10", "C18"}
+            ctx.note_shape(allp, d["path"], ("accept", d["kind"], d["path"]))
+            if not mine:
+                ctx.ob(allp, d["path"] + "|accepted", True, sample={"decl": d["path"], "family": d.get("family"), "compiles": True})
+            else:
+                what = "its expansion does not compile under #![no_std] + #![deny(missing_docs)]" if p == {"C18"} else "rule-valid declaration is rejected (or its expansion does not type-check)"
+                ctx.ob(p, d["path"] + "|accepted", False, "%s: %s [%s]" % (what, mine[0]["message"][:220], decl_text(d)[:200]))
+                for q in allp - p:
+                    ctx.ob({q}, d["path"] + "|accepted", True)
+            for k in d.get("consts", []):
+                if k.get("quarantined"):
+                    ctx.ob({"C15"}, "%s|const_witness|%s" % (d["path"], k["name"]), False,
+                           "`%s` cannot be evaluated in a const context: %s" % (k["expr"][:120], k["quarantined"][0]["message"][:200]))
         if cr is None:
             unattributed = [x for x in diags]
             ctx.ob({"C09", "C10", "C18"}, cname + "|facts", None if not unattributed else False,
@@ -1317,27 +1543,31 @@ def analyse_positive(ctx, want_props):
         if "C18" in want_props:
             check_regime(ctx, cr, cname)
         for d in decls:
+            if d.get("skip"):
+                continue
             if d["kind"] == "enum":
-                if want_props & {"C07", "C10", "C16"}:
+                if want_props & {"C07", "C10"}:
                     check_enum(ctx, cr, d)
+                if "C16" in want_props:
+                    check_total(ctx, cr, d)
                 if "C15" in want_props:
                     check_const(ctx, cr, d)
                 continue
             if d["kind"] != "struct":
                 continue
-            if want_props & {"C01", "C03", "C04", "C05", "C08", "C16", "C12"}:
+            if want_props & {"C01", "C03", "C04", "C05", "C08", "C12"}:
                 for f in d["fields"]:
                     if "r" in f["access"] and not self_overlapping(f):
                         check_getter(ctx, cr, d, f)
-            if want_props & {"C02", "C03", "C04", "C05", "C08", "C16", "C12", "C11"}:
+            if want_props & {"C02", "C03", "C04", "C05", "C08", "C12"}:
                 for f in d["fields"]:
                     if "w" in f["access"] and not self_overlapping(f):
                         check_writers(ctx, cr, d, f)
-            if want_props & {"C06", "C11", "C15", "C16"}:
+            if want_props & {"C06", "C11", "C15"}:
                 check_basics(ctx, cr, d)
             if want_props & {"C12", "C06"}:
                 check_c12_struct(ctx, cr, d)
-            if want_props & {"C13", "C14", "C11", "C16"}:
+            if want_props & {"C13", "C14"}:
                 check_builder(ctx, cr, d)
             if "C17" in want_props:
                 check_access(ctx, cr, d)
@@ -1347,3 +1577,5 @@ def analyse_positive(ctx, want_props):
                 check_debug(ctx, cr, d)
             if "C11" in want_props:
                 check_c11(ctx, cr, d)
+            if "C16" in want_props:
+                check_total(ctx, cr, d)
